@@ -4,6 +4,7 @@ import AdaVerif.Lemmas.UrlSetters
 import AdaVerif.Lemmas.ParseInv
 import AdaVerif.Lemmas.AggSetPathname
 import AdaVerif.Lemmas.Protocol
+import AdaVerif.Lemmas.AggHostSetter
 /-
 C04 — `ada::url` and `ada::url_aggregator` are observationally identical.
 
@@ -252,6 +253,50 @@ theorem protocol_agrees (L ty : Nat) (u : Url) (v : Bytes) (g : Good u) (hty : (
     split
     · exact view_guard u _ g ⟨AdaVerif.Lemmas.recinv_protocol u v g.inv, by rw [path_protocol]; exact g.noSlash⟩ L
     · simp [view, (view_of_good u g).1]
+
+theorem path_host (hn : Bool) (idna : Idna) (u : Url) (v : Bytes) : (setHostGeneric hn idna u v).path = u.path := by
+  simp only [setHostGeneric, portOverride]
+  repeat' split
+  all_goals rfl
+
+theorem file_facts (u : Url) (hinv : RecInv u = true) :
+    u.scheme = bFile → u.host.isSome = true ∧ u.username = [] ∧ u.password = [] := by
+  intro hf
+  have hinv' := hinv
+  simp only [RecInv, Bool.and_eq_true, Bool.or_eq_true, Bool.not_eq_true'] at hinv'
+  obtain ⟨⟨⟨⟨⟨_, _⟩, hspec⟩, hcred⟩, _⟩, _⟩ := hinv'
+  have hsp : u.isSpecial = true := by simp [Url.isSpecial, hf, isSpecialScheme]
+  have hcan : u.cannotHaveUsernamePasswordPort = true := by simp [Url.cannotHaveUsernamePasswordPort, hf]
+  refine ⟨?_, ?_, ?_⟩
+  · rcases hspec with h | h
+    · rw [hsp] at h; cases h
+    · exact h.1.1.1
+  · rcases hcred with h | h
+    · rw [hcan] at h; cases h
+    · simp only [Bool.and_eq_true, List.isEmpty_iff] at h; exact h.1.1
+  · rcases hcred with h | h
+    · rw [hcan] at h; cases h
+    · simp only [Bool.and_eq_true, List.isEmpty_iff] at h; exact h.1.2
+
+/-- **set_host / set_hostname: both types agree** (`partial`: values without a '/', '?' or '\\' between '[' and ']'; IDNA
+    as a parameter) - the delimiter walk, `parse_host` (two different texts, proved to route alike), the `localhost`
+    rule for file URLs, the port part, and on the buffer side the "//" / "/." bookkeeping: same buffer and offsets -/
+theorem host_agrees_partial (hn : Bool) (idna : Idna) (L ty : Nat) (u : Url) (v : Bytes) (g : Good u) (hna : TailNoAt (ofUrl u))
+    (hty : AdaVerif.Lemmas.PP.TyOf u.scheme ty) (hid : ∀ d, AdaVerif.Lemmas.HP.IdnaAt idna d)
+    (hclean : u.scheme ≠ bFile → AdaVerif.Lemmas.HS.bracketClean u.isSpecial false (stripTN (v.takeWhile (· != 0x23))) = true) :
+    layout (toL (setHostR hn idna L ty ((defaultPort u.scheme).getD 0) (recOf u) v).1) =
+      (setHostA hn idna L u.isSpecial (u.scheme == bFile) ((defaultPort u.scheme).getD 0) (layout (ofUrl u)) v).1 := by
+  have ok := credOk_of_recInv u g.inv
+  have g' : Good (setHostGeneric hn idna u v) :=
+    ⟨by cases hn
+        · exact AdaVerif.Lemmas.recinv_host false idna u v g.inv
+        · exact AdaVerif.Lemmas.recinv_host true idna u v g.inv,
+     by rw [path_host]; exact g.noSlash⟩
+  rw [AdaVerif.Lemmas.HS.setHostR_eq hn idna L ty u v hty hid hclean,
+    setHostA_eq hn idna L u v ok hna (file_facts u g.inv) hid hclean, (view_of_good _ g').2]
+  split
+  · exact (view_of_good _ g').1
+  · exact (view_of_good u g).1
 
 /-- the hypotheses are satisfiable -/
 example : Good { scheme := bHttps, host := some (.domain (ofStr "h")), path := [ofStr "a", []] } :=
